@@ -64,19 +64,19 @@ def blocks(thorough):
     else:
         spec = [
             dict(id="s2w4-kf1-kp1-rich", segs=(1, 2), words=4, kf=1, kp=1, rich=True),
-            dict(id="s3w2-kf1-kp1", segs=(3, 3), words=2, kf=1, kp=1),
-            dict(id="s3w3u-kf1-kp1", segs=(3, 3), words=3, wsel="uniform3", kf=1, kp=1, exec="none"),
+            dict(id="s3w2-kf1-kp1", tq=1, segs=(3, 3), words=2, kf=1, kp=1),
+            dict(id="s3w3u-kf1-kp1", tq=1, segs=(3, 3), words=3, wsel="uniform3", kf=1, kp=1, exec="none"),
             dict(id="s3w4-kf0-kp1", segs=(3, 3), words=4, kf=0, kp=1, exec="none"),
-            dict(id="s2w3-kf2-kp0", segs=(1, 2), words=3, kf=2, kfmin=2, kp=0, exec="none"),
+            dict(id="s2w3-kf2-kp0", tq=1, segs=(1, 2), words=3, kf=2, kfmin=2, kp=0, exec="none"),
             dict(id="s2w3-kf0-kp2-rich", segs=(1, 2), words=3, kf=0, kp=2, kpmin=2, rich=True, exec="none"),
-            dict(id="s2w2-kf1-kp2", segs=(1, 2), words=2, wsel="eq2", kf=1, kfmin=1, kp=2, kpmin=2, exec="none"),
-            dict(id="s3w2-kf2-kp0", segs=(3, 3), words=2, wsel="eq2", kf=2, kfmin=2, kp=0, exec="none"),
-            dict(id="prelude-s2w3-kf1-kp0-rich", segs=(1, 2), words=3, kf=1, kp=0, rich=True, prelude=True),
+            dict(id="s2w2-kf1-kp2", tq=1, segs=(1, 2), words=2, wsel="eq2", kf=1, kfmin=1, kp=2, kpmin=2, exec="none"),
+            dict(id="s3w2-kf2-kp0", tq=1, segs=(3, 3), words=2, wsel="eq2", kf=2, kfmin=2, kp=0, exec="none"),
+            dict(id="prelude-s2w3-kf1-kp0-rich", tq=1, segs=(1, 2), words=3, kf=1, kp=0, rich=True, prelude=True),
             dict(id="prelude-s3w2-kf0-kp0-rich", segs=(3, 3), words=2, kf=0, kp=0, rich=True, prelude=True, exec="none"),
             dict(id="prelude-s2w2-kf0-kp1-rich", segs=(1, 2), words=2, kf=0, kp=1, kpmin=1, rich=True, prelude=True, exec="none"),
-            dict(id="prelude-s2w2-kf1-kp1", segs=(1, 2), words=2, wsel="eq2", kf=1, kfmin=1, kp=1, kpmin=1, prelude=True, exec="none"),
+            dict(id="prelude-s2w2-kf1-kp1", tq=1, segs=(1, 2), words=2, wsel="eq2", kf=1, kfmin=1, kp=1, kpmin=1, prelude=True, exec="none"),
             dict(id="eol-s2w3-kf1-kp1-layout", segs=(1, 2), words=3, kf=1, kp=1, family="eol", eols=("crlf", "cr"), fields=("cont", "tail", "blank", "pre", "post")),
-            dict(id="eol-s2w2-kf1-kp1", segs=(1, 2), words=2, kf=1, kp=1, kpmin=1, family="eol", eols=("crlf", "cr"), exec="none"),
+            dict(id="eol-s2w2-kf1-kp1", tq=1, segs=(1, 2), words=2, kf=1, kp=1, kpmin=1, family="eol", exec="none"),
             dict(id="eol-s3w2-kf0-kp1", segs=(3, 3), words=2, kf=0, kp=1, family="eol", eols=("crlf", "cr"), exec="none"),
             dict(id="eol-s2w2-kf0-kp2", segs=(1, 2), words=2, kf=0, kp=2, kpmin=2, family="eol", eols=("crlf", "cr"), exec="none"),
         ]
